@@ -46,7 +46,7 @@ def c09_violations(plan: dict, result: dict):
                 code = oc.split(":", 1)[1]
                 if code in ("0", "None"):
                     sig = "cli:exit-%s-from-fatal" % code
-                elif rec.get("stderr_len", 0) == 0:
+                elif rec.get("stderr_len", 0) == 0 and rec.get("stdout_len", 0) == 0:
                     sig = "cli:silent-failure"
             else:
                 sig = "bad-outcome@%s:%s" % (op, oc)
